@@ -35,12 +35,33 @@ DOT_ENTRIES = ('yolo.*', 'cam-1.*', 'yolo.count', 'cam-?.people', 'yolo?count', 
                'cam-1.people_histogram', 'yolo.*_histogram')
 DOT_KINDS   = ('counter', 'histc', 'histinf', 'gauge')
 
+# Near-miss names: every declared name with one more section in front, behind and inside.  None of them is an allow-list entry;
+# a wildcard entry lets one through only where fnmatch says so ('frames_*' matches 'frames_vip_total', not 'vip_frames_total')
+SECTION = 'vip'
+
+
+def near_misses(name):
+    """-> (prefix form, suffix form, infix form) of a metric name; the infix goes behind the first separator of the name."""
+
+    at = min(i for i, c in enumerate(name) if c in '_.-')
+
+    return f'{SECTION}_{name}', f'{name}_{SECTION}', f'{name[: at + 1]}{SECTION}{name[at]}{name[at + 1 :]}'
+
+
 KINDS = {'quick': ('none', 'counter', 'histc', 'histinf', 'hista', 'gauge'),
          'thorough': ('none', 'counter', 'histc', 'histinf', 'histinf0', 'hista', 'hista10', 'gauge', 'gauge_nocb')}
 
 SEQS = {'none': (), 'one': (3,), 'edges': (0, 1, 1.0000001, 5, 10, 10.5, 1000), 'same': (5, 5, 5),
         'floats': (0.25, 99.75, 1e6, 1e-9)}
 SEQ_NAMES = {'quick': ('none', 'one', 'edges', 'same'), 'thorough': ('none', 'one', 'edges', 'same', 'floats')}
+
+NEAR      = {n: near_misses(n) for n in NAMES}
+DOT_NEAR  = {n: near_misses(n) for n in DOT_NAMES}
+ALL_NEAR  = tuple(d for ds in (*NEAR.values(), *DOT_NEAR.values()) for d in ds)
+LISTABLE  = set(NAMES + DOT_NAMES + ENTRIES + DOT_ENTRIES)
+
+assert len(set(ALL_NEAR)) == len(ALL_NEAR) and not set(ALL_NEAR) & LISTABLE and not any(d.endswith('_histogram') for d in ALL_NEAR), \
+    'harness: a near-miss name collides with a declared name / an allow-list entry'
 
 CUSTOM_BOUNDS = [1, 5, 10]
 INF_BOUNDS    = [1, 5, 10, float('inf')]   # Prometheus style '+Inf' bucket: MetricSpec and the OTel SDK accept it
@@ -324,6 +345,19 @@ def _scenarios(tier):
 
                 out.append((assign, seqname, data, npts))
 
+        # near-miss family: per kind, the names of a group declared together with all their near misses (near misses first), and
+        # every near-miss name alone with every kind
+        near = [tuple((d, k) for ds in grp.values() for d in ds) + tuple((n, k) for n in grp) for grp in (NEAR, DOT_NEAR) for k in DOT_KINDS] + \
+            [((d, k),) for d in ALL_NEAR for k in DOT_KINDS]
+
+        for assign in near:
+            for seqname in (('one', 'edges') if tier == 'quick' else SEQ_NAMES[tier][1:]):
+                data = _scenario_data(assign, SEQS[seqname])
+                npts = 0 if data is None else sum(len(m.data.data_points) for rm in data.resource_metrics
+                    for sm in rm.scope_metrics for m in sm.metrics)
+
+                out.append((assign, seqname, data, npts))
+
         _SCEN[tier] = out
 
     return _SCEN[tier]
@@ -413,7 +447,8 @@ def _wiring_child(cfg, wfd):
                 exporter_type='silent', enabled=True, lineage_emitter=em)
 
         meter  = getattr(client, 'business_meter', None) or client.meter
-        assign = (('frames_total', 'counter'), ('secret_metric', 'histc'), ('lat_ms', 'hista'))
+        assign = (('frames_total', 'counter'), ('secret_metric', 'histc'), ('lat_ms', 'hista')) + \
+            tuple(zip(NEAR['frames_total'] + NEAR['secret_metric'], ('counter', 'histc', 'gauge') * 2))  # near misses of two of them
 
         _declare(meter, assign, SEQS['edges'], {})
         client.update_metrics({'fps': 12.5, 'frames': 3, 'name': 'not-a-number'}, 'cam')  # system metrics: cam_fps gauge, cam_frames counter
@@ -504,6 +539,10 @@ def run(rep):
     rep.assumption('configurations whose meaning is ambiguous (file without a safe_metrics key or unreadable file, together '
         'with OF_SAFE_METRICS set) are not enumerated; file + environment: the file wins (examples/observability-demo/README.md)')
     rep.assumption('OPENLINEAGE_EXPORT_RAW_DATA is off (raw_subject_data is not a metric)')
+    rep.assumption(f'near-miss family: for every declared name (plain and dotted) the names with one more section "{SECTION}" in front '
+        f'("{SECTION}_<name>"), behind ("<name>_{SECTION}") and behind its first separator are declared too (together with the names of '
+        'their group, and alone, with every instrument kind); no allow-list entry names them, a wildcard entry covers one only where '
+        'fnmatch does; the OpenTelemetryClient wiring run declares the near misses of frames_total and secret_metric as well')
 
     # 1. + 2. every configuration x every metric scenario through read_allowlist() and the real exporter
     scen = _scenarios(tier)  # built here, before the worker pool is forked
@@ -512,6 +551,7 @@ def run(rep):
         subsets=2 ** len(ENTRIES))
     rep.part('metrics', names=len(NAMES), kinds=len(kinds), assignments=len(kinds) ** len(NAMES), value_sequences=len(seqs),
         dotted_names=len(DOT_NAMES), dotted_entries=len(DOT_ENTRIES), dotted_scenarios=sum(1 for s in scen if s[0][0][0] in DOT_NAMES),
+        near_miss_names=len(ALL_NEAR), near_miss_scenarios=sum(1 for s in scen if s[0][0][0] in ALL_NEAR),
         scenarios=len(scen), scenarios_with_data_points=sum(1 for s in scen if s[3]))
 
     items    = [(tier, i, cfgs[i : i + 8], rep.only) for i in range(0, len(cfgs), 8)]
